@@ -1001,3 +1001,47 @@ V("c07-guard-all-tables", A, ["C07", "C03"], "C03.d",
         no_database = any(not t.args.get("catalog") for t in tables)
         no_schema = any(not t.args.get("db") for t in tables)
 """))
+
+# ---------------------------------------------------------------- batch-14 rules
+V("c05-dict-rows-unless-tuple-cursor", A, "C05", "C05.i",
+  ("conn", "use_dict_result=cursor_class == DictCursor", "use_dict_result=cursor_class != SnowflakeCursor"))
+V("c16-patterns-kept-as-generator", A, "C16", "C16.d",
+  ("conn", "        self.nop_regexes = nop_regexes\n", "        self.nop_regexes = nop_regexes and (p for p in nop_regexes)\n"))
+V("c16-neutral-patterns-kept-as-tuple", N, ["C16", "C04", "C08"], None,
+  ("conn", "        self.nop_regexes = nop_regexes\n", "        self.nop_regexes = nop_regexes and tuple(nop_regexes)\n"))
+V("c13-commit-only-when-flagged", A, "C13", "C13.d",
+  ("conn", '        self.cursor().execute("COMMIT")', '        if getattr(self, "_in_tx", False):\n            self.cursor().execute("COMMIT")'))
+V("c11-object-construct-drops-values-mentioning-null", A, "C11", "C11.d",
+  ("transforms", "            right_is_null = isinstance(right, exp.Null)\n",
+   "            right_is_null = isinstance(right, exp.Null) or (isinstance(right, exp.Cast) and right.find(exp.Null) is not None)\n"))
+V("c17-single-batch-only", A, "C17", "C17.j",
+  ("arrow", "    batches = table.combine_chunks().to_batches()\n", "    batches = table.to_batches()\n"))
+V("c17-neutral-write-all-batches", N, "C17", None,
+  ("arrow", """    batches = table.combine_chunks().to_batches()
+    if len(batches) != 1:
+        raise NotImplementedError(f"{len(batches)} batches")
+    batch = batches[0]
+
+    sink = pa.BufferOutputStream()
+
+    with pa.ipc.new_stream(sink, table.schema) as writer:
+        writer.write_batch(batch)
+""", """    sink = pa.BufferOutputStream()
+
+    with pa.ipc.new_stream(sink, table.schema) as writer:
+        for batch in table.to_batches():
+            writer.write_batch(batch)
+"""))
+V("c15-executemany-raw-command-under-qmark", A, "C15", "C15.l",
+  ("cursor", """        for p in seqparams:
+            self.execute(command, p)
+""", """        if self._conn._paramstyle not in ("pyformat", "format"):  # noqa: SLF001
+            statements = [self._transform(e) for e in self._transform_explode(parse_one(command, read="snowflake"))]
+            for p in seqparams:
+                for transformed in statements:
+                    self._execute(transformed, p)
+            return self
+
+        for p in seqparams:
+            self.execute(command, p)
+"""))
